@@ -191,6 +191,7 @@ def one_path(eng, run, c, fi, nested, self_cls, rep):
     if nested is not None:
         outer = Frame({k: v for k, v in params.items() if k in extra_names}, module=fi.module, cls=fi.cls)
         outer.qualname = fi.qualname
+        outer.vars[nested.name] = Closure(nested, outer, None, fi.cls, fi.qualname + ".<locals>." + nested.name)   # recursion
         frame = Frame({k: v for k, v in params.items() if k in names}, parent=outer)
         frame.func_node = nested
         frame.qualname = fi.qualname + ".<locals>." + nested.name
